@@ -698,17 +698,100 @@ static void *stress_task_freer(void *arg)
     return NULL;
 }
 
+/* J=<n>: "migrating joiner".  Two extra streams share one pool with six ULTs; each ULT does n x { create a tasklet in
+ * the private pool of another stream, free it at once }.  The tasklet has not run yet, so the free polls it with
+ * yields, and the caller comes back on whichever stream of the shared pool picks it up: the descriptor has to be
+ * returned to the pool of the stream the caller is on THEN.  Checked: no tasklet is handed a descriptor that another
+ * ULT still holds (registry), a final drain of distinct descriptors, no crash, the ledger at finalize. */
+static int s_J;
+static uintptr_t s_jlive[64];
+static long s_jdup;
+static void mj_task(void *arg)
+{
+    volatile int k;
+    (void)arg;
+    for (k = 0; k < 400; k++)
+        ;
+}
+static void mj_worker(void *arg)
+{
+    int me = (int)(intptr_t)arg, r, q;
+    for (r = 0; r < s_J; r++) {
+        ABT_task t;
+        if (ABT_task_create(s_pools[1], mj_task, NULL, &t) != ABT_SUCCESS)
+            VH_DIE("mj task create");
+        uintptr_t d = (uintptr_t)ABTI_thread_get_ptr(t);
+        reglock();
+        for (q = 0; q < 64; q++)
+            if (s_jlive[q] == d)
+                s_jdup++;
+        s_jlive[me] = d;
+        regunlock();
+        if ((r & 7) == 0)
+            ABT_thread_yield();
+        reglock();
+        s_jlive[me] = 0;
+        regunlock();
+        if (ABT_task_free(&t) != ABT_SUCCESS)
+            VH_DIE("mj task free");
+    }
+}
+static int cmp_uptr(const void *a, const void *b)
+{
+    uintptr_t x = *(const uintptr_t *)a, y = *(const uintptr_t *)b;
+    return x < y ? -1 : x > y;
+}
+static void mj_phase(void)
+{
+    ABT_pool shared;
+    ABT_xstream xs[2];
+    ABT_thread wk[6];
+    int i;
+    if (ABT_pool_create_basic(ABT_POOL_FIFO, ABT_POOL_ACCESS_MPMC, ABT_TRUE, &shared) != ABT_SUCCESS)
+        VH_DIE("mj pool");
+    for (i = 0; i < 2; i++)
+        if (ABT_xstream_create_basic(ABT_SCHED_BASIC, 1, &shared, ABT_SCHED_CONFIG_NULL, &xs[i]) != ABT_SUCCESS)
+            VH_DIE("mj xstream");
+    for (i = 0; i < 6; i++)
+        if (ABT_thread_create(shared, mj_worker, (void *)(intptr_t)i, ABT_THREAD_ATTR_NULL, &wk[i]) != ABT_SUCCESS)
+            VH_DIE("mj ult");
+    for (i = 0; i < 6; i++)
+        ABT_thread_free(&wk[i]);
+    /* drain: descriptors handed out now must be pairwise distinct */
+    {
+        enum { ND = 3000 };
+        static ABT_task ts[ND];
+        static uintptr_t ds[ND];
+        for (i = 0; i < ND; i++) {
+            if (ABT_task_create(s_pools[1], stress_task_body, NULL, &ts[i]) != ABT_SUCCESS)
+                VH_DIE("mj drain create");
+            ds[i] = (uintptr_t)ABTI_thread_get_ptr(ts[i]);
+        }
+        qsort(ds, ND, sizeof(ds[0]), cmp_uptr);
+        for (i = 1; i < ND; i++)
+            if (ds[i] == ds[i - 1])
+                s_jdup++;
+        for (i = 0; i < ND; i++)
+            ABT_task_free(&ts[i]);
+    }
+    for (i = 0; i < 2; i++) {
+        ABT_xstream_join(xs[i]);
+        ABT_xstream_free(&xs[i]);
+    }
+}
+
 static void child_stress(char *line, FILE *out)
 {
     char *save1;
     char *hd = strtok_r(line, ";", &save1);
     char *par = strtok_r(NULL, ";", &save1);
-    unsigned long W = 2, X = 1, R = 10, K = 8, T = 0;
+    unsigned long W = 2, X = 1, R = 10, K = 8, T = 0, J = 0;
     {
         char *save0, *tok = strtok_r(par, " ", &save0);
         for (; tok; tok = strtok_r(NULL, " ", &save0)) {
             if (sscanf(tok, "W=%lu", &W) == 1 || sscanf(tok, "X=%lu", &X) == 1 ||
-                sscanf(tok, "R=%lu", &R) == 1 || sscanf(tok, "K=%lu", &K) == 1 || sscanf(tok, "T=%lu", &T) == 1)
+                sscanf(tok, "R=%lu", &R) == 1 || sscanf(tok, "K=%lu", &K) == 1 || sscanf(tok, "T=%lu", &T) == 1 ||
+                sscanf(tok, "J=%lu", &J) == 1)
                 continue;
         }
     }
@@ -782,6 +865,9 @@ static void child_stress(char *line, FILE *out)
         ABT_thread_yield();
     for (i = 0; i < X; i++)
         pthread_join(px[i], NULL);
+    s_J = (int)J;
+    if (J)
+        mj_phase();
     ABT_xstream_join(g_es1);
     ABT_xstream_free(&g_es1);
     ABT_finalize();
@@ -789,7 +875,7 @@ static void child_stress(char *line, FILE *out)
     int leaks = 0, k;
     for (k = 0; k < g_nled; k++)
         leaks += g_led[k].live;
-    fprintf(out, "APIS created=%ld ; ov=%ld leak=%d inv=%ld\n", g_created, g_overlap,
+    fprintf(out, "APIS created=%ld ; ov=%ld leak=%d inv=%ld\n", g_created, g_overlap + s_jdup,
             leaks, g_invalid_frees);
     fflush(out);
 }
